@@ -96,6 +96,11 @@ def directed(ctx):
         {"kind": "field", "key": "first", "family": "str", "params": {}}, {"kind": "field", "key": "second", "family": "str", "params": {}},
         {"kind": "field", "key": "both", "family": "list", "params": {}, "item": None},
         {"kind": "schema", "key": "sec", "fields": [{"kind": "field", "key": "again", "family": "str", "params": {}}]}]}
+    # a configuration whose only top-level entry is a section named like a document-level name of a format
+    for name in ("k0", "CONFIG", "config", "cfg", "item"):
+        one = {"kind": "schema", "key": "", "fields": [{"kind": "schema", "key": name, "fields": [
+            {"kind": "field", "key": "host", "family": "str", "params": {}}, {"kind": "field", "key": "port", "family": "int", "params": {}}]}]}
+        yield {"schema": one, "fmt": "yaml", "tree": {name: {"host": "h", "port": 1}}, "ops": [], "dyn": {}, "rotate": 0, "related": True}
     for a, b in RELATED_STRINGS:
         for x, y in ((a, b), (b, a)):
             yield {"schema": schema, "fmt": "json", "tree": {"first": x, "second": y, "both": [x, y, {"k": x}], "sec": {"again": y}},
